@@ -316,6 +316,122 @@ def vex_row_programs(rng):
     return progs
 
 
+def jt_shared_programs(rng=None, extra=0):
+    """two annotated jump-table sites that share their targets but list them in a different order; a multi-block register that is
+    clean (reloaded after a call) on the path to one site and modified on the path to the other; both targets spill it (a call) and
+    read it again. Both block layouts x all annotation orders (+ random variants with `rng`)."""
+    R, I, M, L = c05_gen.R, c05_gen.Imm, c05_gen.Mem, c05_gen.Lbl
+    progs = []
+    combos = [(lay, o1, o2, 8) for lay in (0, 1) for o1 in ((10, 11), (11, 10)) for o2 in ((10, 11), (11, 10))]
+    for _ in range(extra):
+        combos.append((rng.randrange(2), rng.choice(((10, 11), (11, 10))), rng.choice(((10, 11), (11, 10))), rng.choice([8, 10, 13, 16, 24])))
+    for lay, o1, o2, nl in combos:
+        regs = [("p", "ptr"), ("a1", "u64"), ("a2", "u64"), ("m", "u64"), ("t", "u64"), ("u", "u64"), ("res", "u64")] + [("r%d" % i, "u64") for i in range(nl)]
+        b = [("i", "lea", [R("r%d" % i), M(0, "a1", i + 1)]) for i in range(nl)]
+        b += [("i", "mov", [R("m"), R("a2")]), ("i", "add", [R("m"), I(7)]), ("call", "r0", [R("a1")])]
+
+        def site(order):
+            return [("i", "lea", [R("t"), M(0, "@10")]), ("i", "lea", [R("u"), M(0, "@11")]), ("i", "test", [R("a2"), I(1)]),
+                    ("i", "cmovnz", [R("t"), R("u")]), ("jt", "jmp", R("t"), list(order))]
+        p1 = [("lab", 1), ("call", "r1", [R("r2")]), ("i", "add", [R("r1"), R("m")])] + site(o1)       # m reloaded after the call: clean
+        p2 = [("lab", 2), ("i", "add", [R("m"), R("r2")]), ("i", "rol", [R("m"), I(3)])] + site(o2)    # m modified: dirty
+        b += [("i", "test", [R("a1"), I(1)])]
+        if lay == 0:
+            b += [("i", "jnz", [L(2)])] + p1 + p2
+        else:
+            b += [("i", "jz", [L(1)])] + p2 + p1
+        b += [("lab", 10), ("call", "r3", [R("r4"), R("r5")]), ("i", "add", [R("r3"), R("m")]), ("i", "jmp", [L(12)]),
+              ("lab", 11), ("call", "r5", [R("r6")]), ("i", "xor", [R("r5"), R("m")]), ("i", "add", [R("m"), R("r5")]),
+              ("lab", 12), ("i", "mov", [R("res"), R("m")])]
+        for i in range(nl):
+            b += [("i", "add", [R("res"), R("r%d" % i)]), ("i", "rol", [R("res"), I(5)])]
+        b.append(("ret", "res"))
+        progs.append({"arch": ["x64"], "regs": regs, "stacks": [], "ret": "u64", "argtypes": ["ptr", "u64", "u64"], "args": ["p", "a1", "a2"], "body": b,
+                      "inputs": [[0, x, y] for x in (0, 5) for y in (2, 3)], "family": "x64-jt-shared"})
+    return progs
+
+
+BOUNDARY_IMMS = [0x7FFFFFFF, 0x80000000, 0xFFFFFFFF, 0x100000000, -1, -0x80000000, 0x7FFFFFFFFFFFFFFF, 0x123456789]
+
+
+def imm_boundary_programs(rng=None, extra=0):
+    """calls whose integer arguments are IMMEDIATES at boundary values, in register positions and in stack positions
+    (7th+ argument SysV, 5th+ Win64); executed on the host: the callee logs what it received"""
+    R, I, M = c05_gen.R, c05_gen.Imm, c05_gen.Mem
+    progs = []
+    sets = [[v] for v in BOUNDARY_IMMS] + [[rng.choice(BOUNDARY_IMMS + [rng.getrandbits(rng.choice([31, 32, 33, 63]))]) for _ in range(3)] for _ in range(extra)]
+    for vals in sets:
+        regs = [("p", "ptr"), ("a", "u64"), ("b", "u64"), ("r", "u64"), ("res", "u64"), ("x", "v128"), ("y", "v128")]
+        body = [("i", "lea", [R("b"), M(0, "a", 3)]), ("i", "mov", [R("res"), R("a")]), ("i", "movdqu", [R("x"), M(16, "p", 0)]), ("i", "movdqu", [R("y"), M(16, "p", 16)])]
+        for v in vals:
+            for pos in ((0, 5), (6, 9), (1, 7), (8,)):                # register positions 0..5, stack positions 6..9 (SysV)
+                args = [I(v) if i in pos else R("a" if i % 2 else "b") for i in range(10)]
+                body += [("call", "r", args), ("i", "add", [R("res"), R("r")])]
+            # Win64 callee vuuvuu: arguments 4, 5 on the stack, 1, 2 in registers
+            body += [("callw", 3, "r", [R("x"), I(v), R("a"), R("y"), I(v), R("b")]), ("i", "xor", [R("res"), R("r")]),
+                     ("callw", 3, "r", [R("y"), R("b"), I(v), R("x"), R("a"), I(v)]), ("i", "add", [R("res"), R("r")])]
+        body.append(("ret", "res"))
+        progs.append({"arch": ["x64"], "regs": regs, "stacks": [], "ret": "u64", "argtypes": ["ptr", "u64"], "args": ["p", "a"], "body": body,
+                      "inputs": [[0, 1], [0, 0xFFFFFFFF00000005]], "family": "x64-imm-args"})
+    return progs
+
+
+def win64_byref_exec_programs(rng=None, extra=0):
+    """a SysV function calls Win64 (ms_abi) callees with 128-bit vector arguments (passed by reference through stack temporaries)
+    while a local buffer and spilled values are live across the call; executed on the host"""
+    R, I, M = c05_gen.R, c05_gen.Imm, c05_gen.Mem
+    progs = []
+    cfgs = [(k, ng, nv, st) for k in (0, 1, 2, 3) for (ng, nv, st) in ((2, 2, 32), (14, 18, 64))]
+    for _ in range(extra):
+        cfgs.append((rng.randrange(4), rng.choice([2, 6, 14, 20]), rng.choice([2, 6, 18, 24]), rng.choice([16, 32, 64, 128])))
+    for k, ng, nv, st in cfgs:
+        regs = [("p", "ptr"), ("a", "u64"), ("r", "u64"), ("res", "u64")] + [("g%d" % i, "u64") for i in range(ng)] + [("x%d" % i, "v128") for i in range(nv)]
+        body = [("i", "lea", [R("g%d" % i), M(0, "a", 2 * i + 1)]) for i in range(ng)]
+        body += [("i", "movdqu", [R("x%d" % i), M(16, "p", (i * 12) % 241)]) for i in range(nv)]
+        body += [("i", "mov", [M(8, "&s0", o), R("g%d" % ((o // 8) % ng))]) for o in range(0, st, 8)]          # local buffer, live across the calls
+        body.append(("i", "mov", [R("res"), R("a")]))
+        sig = c05_gen.MS_SIGS[k]
+        for rep in range(3):
+            args = [R("x%d" % ((rep * 5 + j) % nv)) if c == "v" else (R("g%d" % ((rep + j) % ng)) if (rep + j) % 3 else I(1000 + rep)) for j, c in enumerate(sig)]
+            body += [("callw", k, "r", args), ("i", "add", [R("res"), R("r")]), ("i", "add", [R("res"), M(8, "&s0", (8 * rep) % st)]),
+                     ("i", "paddd", [R("x%d" % (rep % nv)), R("x%d" % ((rep + 1) % nv))])]
+        for o in range(0, st, 8):
+            body += [("i", "add", [R("res"), M(8, "&s0", o)]), ("i", "rol", [R("res"), I(3)])]
+        for i in range(ng):
+            body.append(("i", "add", [R("res"), R("g%d" % i)]))
+        for i in range(nv):
+            body += [("i", "movq", [R("r"), R("x%d" % i)]), ("i", "xor", [R("res"), R("r")])]
+        body.append(("ret", "res"))
+        progs.append({"arch": ["x64"], "regs": regs, "stacks": [("s0", st, 16)], "ret": "u64", "argtypes": ["ptr", "u64"], "args": ["p", "a"], "body": body,
+                      "inputs": [[0, 3], [0, 0x8000000000000001]], "family": "x64-win64-byref"})
+    return progs
+
+
+def width_swap_programs(rng=None, extra=0):
+    """GP virtual registers of different width pinned opposite ways (mul -> rax, shift by cl -> rcx) on the two paths into a
+    loop back-edge / join; the 64-bit one holds non-zero upper bits and is used afterwards"""
+    R, I, M, L = c05_gen.R, c05_gen.Imm, c05_gen.Mem, c05_gen.Lbl
+    progs = []
+    cfgs = [(f, n) for f in (0, 1) for n in (0, 10)] + [(rng.randrange(2), rng.choice([0, 4, 10, 14])) for _ in range(extra)]
+    for flip, nl in cfgs:
+        regs = [("p", "ptr"), ("a1", "u64"), ("a", "u64"), ("b", "u32"), ("c", "u32"), ("x", "u64"), ("y", "u32"), ("h", "u64"), ("h2", "u32"), ("res", "u64")] +                [("r%d" % i, "u64") for i in range(nl)]
+        body = [("i", "mov", [R("a"), R("a1")]), ("i", "mov", [R("b"), R("a1", "r32")]), ("i", "or", [R("b"), I(1)]), ("i", "lea", [R("x"), M(0, "a1", 77)]),
+                ("i", "mov", [R("y"), I(3)]), ("i", "xor", [R("res", "r32"), R("res", "r32")]), ("i", "mov", [R("c"), I(4)])]
+        body += [("i", "lea", [R("r%d" % i), M(0, "a1", i + 9)]) for i in range(nl)]
+        pathA = [("i", "mul", [R("h"), R("a"), R("x")]), ("i", "shl", [R("x"), R("b", "r8")]), ("i", "or", [R("x"), I(1)])]         # a -> rax, b -> rcx
+        pathB = [("i", "mul", [R("h2"), R("b"), R("y")]), ("i", "or", [R("b"), I(1)]), ("i", "shl", [R("x"), R("a", "r8")]), ("i", "or", [R("x"), I(1)])]   # b -> eax, a -> rcx
+        first, second = (pathA, pathB) if flip == 0 else (pathB, pathA)
+        body += [("lab", 1), ("i", "test", [R("c"), I(1)]), ("i", "jz", [L(2)])] + first + [("i", "jmp", [L(3)]), ("lab", 2)] + second +                 [("lab", 3), ("i", "add", [R("res"), R("a")]), ("i", "rol", [R("res"), I(9)]), ("i", "mov", [R("h2"), R("b")]), ("i", "add", [R("res"), R("h2", "r64") if False else R("x")]),
+                 ("i", "dec", [R("c")]), ("i", "jnz", [L(1)])]
+        body += [("i", "add", [R("res"), R("a")]), ("i", "mov", [R("h", "r32"), R("b")]), ("i", "add", [R("res"), R("h")])]
+        for i in range(nl):
+            body.append(("i", "add", [R("res"), R("r%d" % i)]))
+        body.append(("ret", "res"))
+        progs.append({"arch": ["x64"], "regs": regs, "stacks": [], "ret": "u64", "argtypes": ["ptr", "u64"], "args": ["p", "a1"], "body": body,
+                      "inputs": [[0, 0xFFFFFFFF00000003], [0, 0x8000000180000001], [0, 5]], "family": "x64-width-swap"})
+    return progs
+
+
 def x86_32_programs(rng, n):
     R, I, M, L = c05_gen.R, c05_gen.Imm, c05_gen.Mem, c05_gen.Lbl
     progs = []
@@ -460,6 +576,10 @@ def run(res):
     quick = res.tier == "quick"
     progs = idiom_programs()
     progs += vex_row_programs(rng)
+    progs += jt_shared_programs(rng, 0 if quick else 150)
+    progs += imm_boundary_programs(rng, 0 if quick else 60)
+    progs += win64_byref_exec_programs(rng, 0 if quick else 120)
+    progs += width_swap_programs(rng, 0 if quick else 60)
     progs += random_programs(rng, 260 if quick else 4000, res.tier)
     progs += a64_programs(rng, 90 if quick else 1500)
     progs += x86_32_programs(rng, 50 if quick else 800)
